@@ -79,6 +79,17 @@ func vfC04Enabled(chunkedX bool) func(hist []vfOp) []vfOp {
 			out = append(out, vfOp{Op: "write", Path: "/y", Pat: 2})
 			out = append(out, vfOp{Op: "attr", Path: "/y", Name: "a", Value: "f64x3"})
 		}
+		// at most once per history: the session ends and a new one begins (handles of the
+		// datasets re-acquired with OpenDataset, group handles gone)
+		reopened := false
+		for _, o := range hist {
+			if o.Op == "reopen" {
+				reopened = true
+			}
+		}
+		if has["/x"] && !reopened {
+			out = append(out, vfOp{Op: "reopen"})
+		}
 		if has["/g"] {
 			out = append(out, vfOp{Op: "attr", Path: "/g", Name: "a", Value: "s40"})
 			if !has["/lg"] {
